@@ -2524,6 +2524,8 @@ where
             return (old_count, 1);
         }
 
+        anda_db_utils::verif_point!("btree.compact.after_snapshot");
+
         // Step 2: Sort by size descending for better packing.
         fv_sizes.sort_unstable_by_key(|b| std::cmp::Reverse(b.1));
 
@@ -2543,6 +2545,7 @@ where
 
         // Step 4: Rebuild buckets.
         self.buckets.clear();
+        anda_db_utils::verif_point!("btree.compact.after_clear");
         let new_count = bins.len();
         let max_id = new_count.saturating_sub(1) as u32;
 
@@ -2560,6 +2563,7 @@ where
                 .insert(bucket_id, (size, true, field_values.into(), 1));
         }
 
+        anda_db_utils::verif_point!("btree.compact.after_rebuild");
         self.max_bucket_id.store(max_id, Ordering::Relaxed);
         self.update_metadata(|m| {
             m.stats.version += 1;
